@@ -1,6 +1,10 @@
 /* c14_e2e: real bitrate-managed encodes, judged over EVERY contiguous packet run (C14, part E2).
  *
  * case line: <idx> e2e <rate> <ch> <template_kbps> <max_kbps> <min_kbps> <avg_kbps> <reservoir: d | seconds> <bias: d | 0..1> <signal> <nsamples>
+ *            <idx> e2req ... same fields ... [<damping: d | value>]   REQUEST mode: reservoir may be b<raw bits>, bias / damping any strtod
+ *              string (nan, inf, -1, ...).  The values are offered to the real OV_ECTL_RATEMANAGE2_SET; if it refuses (rc != 0) the
+ *              case answers "refused rc=.." (counted, cannot violate anything); if it ACCEPTS, the encode runs and is judged against
+ *              the configured reservoir exactly like an in-range case ("any reservoir size and bias accepted by the control interface").
  *   0 kbps = limit unused.  Set-up: vorbis_encode_setup_managed(nominal=template_kbps, no limits) picks the encoder template, then
  *   OV_ECTL_RATEMANAGE2_GET / _SET install max/min/avg, reservoir bits (= seconds * (max or, if unused, min rate); d = the
  *   default 2 s of the template rate) and bias, OV_ECTL_RATEMANAGE2_GET again (the configured values the oracle uses),
@@ -22,7 +26,7 @@
  *     units = number of short-block units in the run (1 per short block, bs1/bs0 per long block); q = max_rate*(bs0/2)/rate is
  *        the exact per-short-block budget, which vorbis_bitrate_init rounds to an integer number of bits (rint): the hard limit
  *        the manager enforces is quantised by at most half a bit per short block.  Stated as an assumption of the check.
- *   internal: 0 <= bms.minmax_reservoir <= R after every packet (R >= 7 in all E2 cases)
+ *   internal: min(0,R-7) <= bms.minmax_reservoir <= max(R,7) after every packet (== [0,R] for R >= 7)
  *   installed == configured: ci->bi.{max,min}_rate, reservoir_bits and bms.{max,min}_bitsper must carry the limits configured
  *   through the control interface; otherwise VIOL kind=limit_not_installed_{min|max|reservoir}, and the run oracle is still
  *   evaluated against the CONFIGURED limits (run_oracle=...) to show the shortfall/excess in the emitted packets themselves.
@@ -46,10 +50,10 @@ static pkt P[MAXP];
 static volatile long g_cur=-1;
 static void on_alarm(int s){ char b[64]; int n=snprintf(b,sizeof(b),"%ld TIMEOUT\n",g_cur); (void)s; fflush(stdout); if(write(1,b,n)<0){} _exit(3); }
 
-static void run_case(long idx,long rate,int ch,long tmplk,long maxk,long mink,long avgk,const char *resmode,const char *biasmode,const char *sig,long nsamp){
+static void run_case(long idx,int req,long rate,int ch,long tmplk,long maxk,long mink,long avgk,const char *resmode,const char *biasmode,const char *dampmode,const char *sig,long nsamp){
   vorbis_info vi; vorbis_comment vc; vorbis_dsp_state vd; vorbis_block vb; ogg_packet op; struct ovectl_ratemanage2_arg ai;
   int ret,eos=0,n=0,i,j; long done=0,chunk=1024; long R,maxr,minr,bs[2],hs,spl; double bias;
-  long ntrunc=0,npad=0,nonmono=0,hit0=0,hitfull=0,minres,maxres,nshort=0,nlong=0,limited=0; const char *viol=NULL,*notinst=NULL; char det[400],ndet[400]; det[0]=0; ndet[0]=0;
+  long ntrunc=0,npad=0,nonmono=0,hit0=0,hitfull=0,minres,maxres,nshort=0,nlong=0,limited=0; const char *viol=NULL,*notinst=NULL,*ivio=NULL; char det[400],ndet[400],idet[400]; det[0]=0; ndet[0]=0; idet[0]=0;
   codec_setup_info *ci; bitrate_manager_state *bm; private_state *ps;
   vorbis_info_init(&vi);
   ret=vorbis_encode_setup_managed(&vi,ch,rate,-1,tmplk*1000,-1);
@@ -57,10 +61,16 @@ static void run_case(long idx,long rate,int ch,long tmplk,long maxk,long mink,lo
   memset(&ai,0,sizeof(ai));
   if(vorbis_encode_ctl(&vi,OV_ECTL_RATEMANAGE2_GET,&ai)){ printf("%ld cfgerr get\n",idx); vorbis_info_clear(&vi); return; }
   ai.bitrate_limit_max_kbps=maxk; ai.bitrate_limit_min_kbps=mink; ai.bitrate_average_kbps=avgk;
-  if(strcmp(resmode,"d"))ai.bitrate_limit_reservoir_bits=(long)(atof(resmode)*1000.*(maxk>0?maxk:mink));
-  if(strcmp(biasmode,"d"))ai.bitrate_limit_reservoir_bias=atof(biasmode);
+  if(resmode[0]=='b')ai.bitrate_limit_reservoir_bits=atol(resmode+1);            /* raw bit count (request mode) */
+  else if(strcmp(resmode,"d"))ai.bitrate_limit_reservoir_bits=(long)(atof(resmode)*1000.*(maxk>0?maxk:mink));
+  if(strcmp(biasmode,"d"))ai.bitrate_limit_reservoir_bias=strtod(biasmode,NULL);   /* strtod: also nan, inf, -inf */
+  if(strcmp(dampmode,"d"))ai.bitrate_average_damping=strtod(dampmode,NULL);
   ret=vorbis_encode_ctl(&vi,OV_ECTL_RATEMANAGE2_SET,&ai);
-  if(ret){ printf("%ld cfgerr set=%d\n",idx,ret); vorbis_info_clear(&vi); return; }
+  if(ret){
+    /* e2req: the request may legitimately be refused - a refused setting cannot violate anything, it is only counted */
+    if(req)printf("%ld refused rc=%d\n",idx,ret); else printf("%ld cfgerr set=%d\n",idx,ret);
+    vorbis_info_clear(&vi); return;
+  }
   memset(&ai,0,sizeof(ai));
   vorbis_encode_ctl(&vi,OV_ECTL_RATEMANAGE2_GET,&ai);
   R=ai.bitrate_limit_reservoir_bits; bias=ai.bitrate_limit_reservoir_bias; maxr=ai.bitrate_limit_max_kbps*1000; minr=ai.bitrate_limit_min_kbps*1000;
@@ -129,8 +139,15 @@ static void run_case(long idx,long rate,int ch,long tmplk,long maxk,long mink,lo
           npad++;
           for(k=sz[choice];k<op.bytes;k++)if(op.packet[k]){ viol="padding_not_zero"; sprintf(det,"packet %d byte %ld=%d",n,k,op.packet[k]); break; }
         }
-        if(P[n].res<0){ viol="reservoir_underflow"; sprintf(det,"packet %d reservoir %ld -> %ld",n,res0,P[n].res); break; }
-        if(P[n].res>R){ viol="reservoir_overflow"; sprintf(det,"packet %d reservoir %ld -> %ld > R=%ld",n,res0,P[n].res,R); break; }
+        /* same range as E1: [min(0,R-7), max(R,7)], i.e. exactly [0,R] for R>=7 (a whole-byte packet cannot hit a sub-byte window) */
+        if(P[n].res<(R<7?R-7:0)||P[n].res>(R<7?7:R)){
+          const char *k=P[n].res<0?"reservoir_underflow":"reservoir_overflow"; char d2[200];
+          sprintf(d2,"packet %d reservoir %ld -> %ld outside [0,R=%ld]",n,res0,P[n].res,R);
+          /* request mode: keep encoding so that the limit clauses themselves are judged on the emitted packets; the internal
+             finding is reported only if the run oracle stays silent */
+          if(req){ if(!ivio){ ivio=k; strcpy(idet,d2); } }
+          else { viol=k; strcpy(det,d2); break; }
+        }
         if(op.e_o_s)eos=1;
         n++;
       }
@@ -181,13 +198,14 @@ static void run_case(long idx,long rate,int ch,long tmplk,long maxk,long mink,lo
       printf("%ld VIOL n=%d bs=%ld/%ld R=%ld bias=%g kind=limit_not_installed_%s detail=\"%s\" run_oracle=%s run_detail=\"%s\"\n",idx,n,bs[0],bs[1],R,bias,notinst,ndet,viol?viol:"none",det);
       goto done;
     }
+    if(!viol&&ivio){ viol=ivio; strcpy(det,idet); }
     if(!viol){
       printf("%ld ok n=%d short=%ld long=%ld bs=%ld/%ld R=%ld bias=%g Mq=%ld mq=%ld worstp=%.1f@%d-%d worstm=%.1f@%d-%d minres=%ld maxres=%ld trunc=%ld pad=%ld nonmono=%ld hit0=%ld hitfull=%ld limited=%ld runs=%ld\n",
              idx,n,nshort,nlong,bs[0],bs[1],R,bias,Mq,mq,maxr>0?worstp:0.,wi,wj,minr>0?worstm:0.,wmi,wmj,minres,maxres,ntrunc,npad,nonmono,hit0,hitfull,limited,(long)n*(n+1)/2);
       goto done;
     }
   }
-  printf("%ld VIOL n=%d bs=%ld/%ld R=%ld bias=%g kind=%s detail=\"%s\"\n",idx,n,bs[0],bs[1],R,bias,viol,det);
+  printf("%ld VIOL n=%d bs=%ld/%ld R=%ld bias=%g kind=%s detail=\"%s\" internal=%s\n",idx,n,bs[0],bs[1],R,bias,viol,det,ivio?ivio:"none");
  done:
   vorbis_block_clear(&vb); vorbis_dsp_clear(&vd); vorbis_comment_clear(&vc); vorbis_info_clear(&vi);
 }
@@ -198,12 +216,15 @@ int main(int argc,char **argv){
   if(!cases)return 2;
   cf=fopen(cases,"r"); if(!cf)return 2;
   signal(SIGVTALRM,on_alarm);
+  { struct rlimit rl; rl.rlim_cur=rl.rlim_max=(rlim_t)3<<30; setrlimit(RLIMIT_AS,&rl); }
   while(getline(&line,&lcap,cf)>0){
-    long idx,rate,tmplk,maxk,mink,avgk,nsamp; int ch; char mode[16],resmode[32],biasmode[32],sig[16]; struct itimerval it;
-    if(sscanf(line,"%ld %15s %ld %d %ld %ld %ld %ld %31s %31s %15s %ld",&idx,mode,&rate,&ch,&tmplk,&maxk,&mink,&avgk,resmode,biasmode,sig,&nsamp)<12)continue;
+    long idx,rate,tmplk,maxk,mink,avgk,nsamp; int ch,nf; char mode[16],resmode[32],biasmode[32],sig[16],dampmode[32]; struct itimerval it;
+    strcpy(dampmode,"d");
+    nf=sscanf(line,"%ld %15s %ld %d %ld %ld %ld %ld %31s %31s %15s %ld %31s",&idx,mode,&rate,&ch,&tmplk,&maxk,&mink,&avgk,resmode,biasmode,sig,&nsamp,dampmode);
+    if(nf<12)continue;
     g_cur=idx;
     memset(&it,0,sizeof(it)); it.it_value.tv_sec=timeout; setitimer(ITIMER_VIRTUAL,&it,NULL);
-    run_case(idx,rate,ch,tmplk,maxk,mink,avgk,resmode,biasmode,sig,nsamp);
+    run_case(idx,!strcmp(mode,"e2req"),rate,ch,tmplk,maxk,mink,avgk,resmode,biasmode,dampmode,sig,nsamp);
     fflush(stdout);
     memset(&it,0,sizeof(it)); setitimer(ITIMER_VIRTUAL,&it,NULL);
   }
